@@ -38,15 +38,26 @@ extern "C" {
 }
 
 fn written(f: impl FnOnce(&mut DiplomatWrite)) -> String {
-    let w = diplomat_runtime::diplomat_buffer_write_create(32);
-    // Safety: `w` comes from diplomat_buffer_write_create and is destroyed below; the bytes are read before that
+    // destroyed on every path, also when the FFI function panics under the call wrapper (a leak of the harness's own
+    // buffer would otherwise show up in the Miri / leak-checking legs as if it were the library's)
+    struct Buf(*mut DiplomatWrite);
+    impl Drop for Buf {
+        fn drop(&mut self) {
+            // Safety: the pointer comes from diplomat_buffer_write_create and is destroyed exactly once, here
+            unsafe { diplomat_runtime::diplomat_buffer_write_destroy(self.0) }
+        }
+    }
+    let w = Buf(diplomat_runtime::diplomat_buffer_write_create(32));
+    // Safety: `w.0` is valid until `w` is dropped at the end of this function; the bytes are copied before that
     unsafe {
-        f(&mut *w);
-        let len = diplomat_buffer_write_len(&*w);
-        let ptr = diplomat_buffer_write_get_bytes(&*w);
-        let s = if ptr.is_null() { String::new() } else { String::from_utf8_lossy(std::slice::from_raw_parts(ptr, len)).into_owned() };
-        diplomat_runtime::diplomat_buffer_write_destroy(w);
-        s
+        f(&mut *w.0);
+        let len = diplomat_buffer_write_len(&*w.0);
+        let ptr = diplomat_buffer_write_get_bytes(&*w.0);
+        if ptr.is_null() {
+            String::new()
+        } else {
+            String::from_utf8_lossy(std::slice::from_raw_parts(ptr, len)).into_owned()
+        }
     }
 }
 
@@ -270,7 +281,8 @@ pub fn run(rep: &mut Report) {
     let n = rep.cfg.budget(120_000, 1_800_000);
     let fresh = FsTzdbProvider::default();
     // zones of the database with their transitions (exported tables), for hostile instants only - the oracle is the core
-    let real_zones: Vec<crate::zones::Zone> = crate::zones::load_real("/verif/.build/zones.tbl").into_iter().filter(|z| !z.trans.is_empty() && z.trans.len() < 400).collect();
+    // (not under Miri: parsing the tables there takes longer than the whole reduced run)
+    let real_zones: Vec<crate::zones::Zone> = if cfg!(miri) { Vec::new() } else { crate::zones::load_real("/verif/.build/zones.tbl").into_iter().filter(|z| !z.trans.is_empty() && z.trans.len() < 400).collect() };
     let midnight_gaps: Vec<(usize, i64)> = {
         let mut v = Vec::new();
         for (zi, z) in real_zones.iter().enumerate() {
@@ -296,7 +308,9 @@ pub fn run(rep: &mut Report) {
         evals += 1;
         let mut rr = Rng::new(sub, "c19-case", 0);
         let r = &mut rr;
-        let cal_id = *r.pick(&CALS);
+        // (under Miri the astronomical Chinese calendar is left out: one far-away conversion takes minutes there)
+        let cal_id = if cfg!(miri) { *r.pick(&CALS[..7]) } else { *r.pick(&CALS) };
+        let cal_id = if cfg!(miri) && cal_id == "chinese" { "iso8601" } else { cal_id };
         let cal = Calendar::from_str(cal_id).unwrap_or_default();
         let fcal = fc::Calendar::from_utf8(cal_id.as_bytes()).ok();
         let Some(fcal) = fcal else {
